@@ -50,7 +50,7 @@ def sweepCheck (c : Case) (a4 : Nat) (n : Nat) (ref : Run) : Option String × Op
       else if g 4 = 0 then prop := some s!"factors differ from the library-allocation run although info={info} ({what})"
     if info > n then nshort := nshort + 1
     if corr.isNone ∧ g 2 = 0 ∧ g 3 = 0 then
-      let cf : Conf := ⟨1, fill, lw, a4, 0, 0⟩
+      let cf : Conf := ⟨1, fill, lw, a4, 0, 0, 0⟩
       let mc := cfgOf c cf
       let agree := variants.any fun (_, fx) =>
         let ini := memInit fx (fun _ => false) mc
@@ -112,7 +112,7 @@ def handle (c : Case) : Res :=
     (replayAny c p cf r n).map fun e => s!"{p} lwork={cf.lwork} align4={cf.align4} fill={cf.fill}: {e}"
   let cfault := faults.findSome? fun (p, cf, r, _) =>
     (replayAny c p cf r n).map fun e => s!"{p} fault #{cf.fault} fill={cf.fill}: {e}"
-  let mc := cfgOf c ⟨1, c.pInt "fill", 0, 0, 0, 0⟩
+  let mc := cfgOf c ⟨1, c.pInt "fill", 0, 0, 0, 0, 0⟩
   let cq : Option String :=
     if qinfo ≠ queryInfo mc then some s!"query info: model {queryInfo mc}, gssvx {qinfo}"
     else if qg.getD 0 0 ≠ queryInfo mc then some s!"query info: model {queryInfo mc}, gstrf {qg.getD 0 0}" else none
